@@ -375,6 +375,14 @@ func main() {
 			base = uint64(n)
 		}
 	}
+	// known findings are not minimised again on every run
+	var nomin []string
+	for _, f := range findings {
+		if f.kind == "open" && f.property == p.ID {
+			nomin = append(nomin, f.invariant)
+		}
+	}
+	os.Setenv("VERIF_NOMIN_INVARIANTS", strings.Join(nomin, ","))
 	procs := *fProcs
 	if procs > runs {
 		procs = runs
